@@ -108,7 +108,9 @@ def case_header(case):
 
 def make_recording(case, d):
     ns, nc = case["ns"], case["nc"]
-    stride = nc + 1
+    # value = sample * stride + channel.  stride > nc + 1 on purpose for most cases: with stride = nc + 1 the
+    # file is just 0, 1, 2, ... whatever its shape, and data read from ANOTHER recording would look right
+    stride = case.get("stride") or nc + 1
     data = (np.arange(ns, dtype=np.int64)[:, None] * stride + np.arange(nc + 1)[None, :]).astype(np.float32)
     if case.get("float_seed") is not None:      # preprocessing cases: noise with a few large deflections
         g = np.random.RandomState(case["float_seed"])
@@ -478,7 +480,7 @@ def enc_opt(l):
 
 def enc_inp(case, size, picks):
     geom, sp = case["geom"], case["spikes"]
-    out = [1, case["ns"], case["nc"], case["to"], case["L"], case["maxwf"], size, 40000, 1, case["nc"] + 1]
+    out = [1, case["ns"], case["nc"], case["to"], case["L"], case["maxwf"], size, 40000, 1, case.get("stride") or case["nc"] + 1]
     out += [len(geom)] + [int(v) for g in geom for v in g]
     out += [len(sp)] + [int(v) for s in sp for v in s]
     out += [len(picks)]
@@ -670,7 +672,7 @@ def gen_case(rng, cid, big=None):
     # seed 0 is a seed like any other (`seed or ...` would lose it); 2**40 does not fit 32 bits
     seed = [0, 1, 2 ** 40, rng.randrange(2, 10 ** 6), rng.randrange(2, 10 ** 6)][cid % 5]
     return {"id": cid, "ns": ns, "nc": nc, "geom": geom, "to": to, "L": L, "maxwf": maxwf, "spikes": spikes,
-            "seed": seed, "labels": labels, "indices": indices, "sizes": sizes,
+            "seed": seed, "labels": labels, "indices": indices, "sizes": sizes, "stride": nc + 1 + (cid % 4),
             "dt": dt, "strided": rng.random() < 0.3, "bin_str": rng.random() < 0.3,
             "lab_repr": rng.choice(["array", "list", "tuple", "int32"]),
             "ind_repr": rng.choice(["array", "list", "scalar", "npint"]),
@@ -851,6 +853,7 @@ def enc_array_obs(c, obs):
 # --------------------------------------------------------------------------
 def case_desc(case, size, n_jobs):
     d = {k: case[k] for k in ("ns", "nc", "geom", "to", "L", "maxwf", "spikes", "seed", "labels", "indices")}
+    d["stride"] = case.get("stride")
     for k in ("dt", "strided", "bin_str", "lab_repr", "ind_repr", "h_none", "out_of_domain", "malformed"):
         d[k] = case.get(k)
     d["size"], d["n_jobs"] = size, n_jobs
@@ -980,6 +983,7 @@ def run_session_pair(ctx, rng, work, cid0, layout, inputs, outputs, descs):
             c = gen_case(rng, cid0 + j)
         size = max(c["to"], 1, c["ns"] // 3)
         c["sizes"] = [size]
+        c["stride"] = c["nc"] + 2 + 3 * j           # the two recordings share no value at any file position
         sessions.append({"case": c, "size": size, "n_jobs": layout["n_jobs"], "out": layout["out"], "bin": layout["bin"][j]})
     desc = {"session_pair": layout, "sessions": [case_desc(s_["case"], s_["size"], s_["n_jobs"]) for s_ in sessions]}
     try:
